@@ -38,6 +38,19 @@ pub fn run(ctx: &mut Ctx) {
             ];
             if rr.chance(1, 2) { l.reverse(); }
             cases.push((format!("unordered-multisell#{i}"), l));
+            // … and a 30-day candidate purchase of MMM on a day that also has a sale of MMM and, written after them,
+            // a line of a security sorting before it: how much of that purchase is kept for the day's own sale
+            // must not depend on how many lines follow (a search by position in the date-sorted list would)
+            let day2 = d0 + Duration::days(rr.range(40, 200));
+            let l2: Ledger = vec![
+                GTx::new(d0, "MMM", Kind::Buy, Decimal::from(100), Decimal::from(10), Decimal::ZERO),
+                GTx::new(day2 - Duration::days(rr.range(1, 29)), "MMM", Kind::Sell, Decimal::from(rr.range(30, 60)), Decimal::from(14), Decimal::ZERO),
+                GTx::new(day2, "MMM", Kind::Buy, Decimal::from(rr.range(20, 50)), Decimal::from(11), Decimal::ZERO),
+                GTx::new(day2, "MMM", Kind::Sell, Decimal::from(rr.range(5, 20)), Decimal::from(12), Decimal::ZERO),
+                GTx::new(day2, "AAA", Kind::Buy, Decimal::from(rr.range(1, 9)), Decimal::from(5), Decimal::ZERO),
+                GTx::new(day2, "ZZZ", Kind::Buy, Decimal::from(rr.range(1, 9)), Decimal::from(5), Decimal::ZERO),
+            ];
+            cases.push((format!("unordered-multisell-probe#{i}"), l2));
         }
     }
     ctx.ev.rule = "each accepted generated ledger P (plus prefixes written out of date order with a day of two separate SELL lines, continued by 15–44 later lines and compared leg for leg; a long single-security history is cut at its 29th–33rd purchase, its remainder becoming S) × a generated continuation S (no CAPRETURN/ACCUMULATION; in half the cases with a SPLIT/UNSPLIT of a security that P holds, by preference one whose purchases P's capital events adjusted) shifted to start 31, 32 or more days after P's last transaction (exactly 31 in a third of the cases): the real calculate() on P ++ S must either reject with an error dated in S or list, for every disposal dated within P, the same legs, costs, proceeds and gain as calculate() on P. Correspondence: P ++ S vs the model. Non-trivial = P has a disposal in its last 30 days and S contains a purchase of the same security; distinct by ledger text.".into();
@@ -79,7 +92,7 @@ pub fn run(ctx: &mut Ctx) {
             Some(t) => { ctx.ev.count("long-history-cut"); t }
             None if forced_block.is_some() => {
                 ctx.ev.count("unordered-multisell-prefix");
-                let k = 15 + r.below(30) as i64;
+                let k = if name.contains("probe") { 1 + r.below(9) as i64 } else { 15 + r.below(30) as i64 };
                 (0..k).map(|j| GTx::new(last + Duration::days(400 + 3 * j), "BBB", Kind::Buy, rust_decimal::Decimal::from(1 + j), rust_decimal::Decimal::from(2), rust_decimal::Decimal::ZERO)).collect()
             }
             None => ledger::gen_ledger(&mut r, &scfg),
